@@ -21,13 +21,16 @@
           placeholder ask does not fit the CURRENT queue maximum (AddApplication applies the task-group check to
           recovering applications); its allocations and asks are then rejected too. For such a case the totals are not
           compared; every other rejection is still reported (1201)
+     1211 B's node ledger is inconsistent (Core/Ledger.v nodes_ledger_ok: allocated = sum of the listed allocations,
+          occupied = sum of the foreign ones, available = total - allocated - occupied as functions), after the replay or
+          after a continued step; per-node AVAILABLE of B vs A is part of 1202 (an over-committed node stays over-committed)
      1250 crash point inside the window of finding 12 (a foreign allocation re-sent with another node id is listed on
           two nodes of A; the replay reproduces the orphan on B) - nothing else is evaluated for the case
    The comparison with A (1202-1205) is made when A's own books agree (hypothesis books_agree of recover_matches_old:
    a disagreement inside A is a violation of the conservation property C03/C05, not of recovery); B is compared with
    the totals computed from the shim's knowledge in every case (1291). *)
 From Coq Require Import List ZArith NArith Bool.
-From YK Require Import Base.Res Core.Obs Core.Recover.
+From YK Require Import Base.Res Core.Obs Core.Recover Core.Ledger.
 Import ListNotations.
 Open Scope N_scope.
 
@@ -87,6 +90,14 @@ Definition same_totals (A B : ostate) : list N :=
               flag (Z.eqb (obs_total B k ty) expected) (kind_of_key k)) types123)
          (obs_keys A ++ obs_keys B)).
 
+(* per-node available (negative on an over-committed node) is the same; not compared with a swap in flight *)
+Definition same_available (A B : ostate) : list N :=
+  if negb (no_inflight A) then [] else
+  dedup (flat_map (fun a => match find_node B (on_id a) with
+                            | Some b => flag (forallb (fun ty => Z.eqb (getz (on_available a) ty) (getz (on_available b) ty)) types123) 1202
+                            | None => [1202]
+                            end) (s_nodes A)).
+
 Definition same_apps (A B : ostate) (recq : N) : list N :=
   dedup (flat_map (fun a => match find_app B (ap_id a) with
                             | None => [1206]
@@ -130,7 +141,7 @@ Definition new_alloc_fits (s : ostate) (e : oevent) : list N :=
   match e with
   | ENewAlloc _ app node r _ =>
       flag (match find_node s node with
-            | Some n => forallb (fun kv => negb (0 <? snd kv)%Z || (0 <=? getz (on_available n) (fst kv))%Z) r
+            | Some n => forallb (fun kv => negb (0 <? snd kv)%Z || ((0 <=? getz (on_available n) (fst kv))%Z && (0 <=? node_free n (fst kv))%Z)) r
             | None => false end) 1208 ++
       flag (match find_app s app with
             | Some a => forallb (fun q => match find_queue s q with
@@ -148,7 +159,7 @@ Fixpoint cont_steps (i : N) (l : list ostep) : list (N * N) :=
   match l with
   | [] => []
   | st :: t =>
-      map (fun k => (i, k)) (flag (negb (st_panic st)) 1201 ++ flag (books_ok (st_obs st)) 1207 ++
+      map (fun k => (i, k)) (flag (negb (st_panic st)) 1201 ++ flag (books_ok (st_obs st)) 1207 ++ flag (nodes_ledger_ok (st_obs st)) 1211 ++
                              flat_map (new_alloc_fits (st_obs st)) (st_events st))
       ++ cont_steps (i + 1) t
   end.
@@ -190,9 +201,9 @@ Definition c12_check_case (h : N) (c : rccase) : list (N * N) :=
   replay_steps W (h * 1000) (h_steps (rc_replay c)) ++
   map (fun k => (h * 1000 + 499, k))
       (match W with
-       | [] => (if books_ok A then same_totals A B else []) ++ model_check A B (h_steps (rc_replay c))
+       | [] => (if books_ok A then same_totals A B ++ same_available A B else []) ++ model_check A B (h_steps (rc_replay c))
        | _ => [1251]
-       end ++ same_apps A' B (rc_recq c) ++ same_items A' B ++ flag (books_ok B) 1207) ++
+       end ++ same_apps A' B (rc_recq c) ++ same_items A' B ++ flag (books_ok B) 1207 ++ flag (nodes_ledger_ok B) 1211) ++
   cont_steps (h * 1000 + 500) (h_steps (rc_cont c)).
 
 Fixpoint c12_cases (h : N) (l : list rccase) : list (N * N) :=
